@@ -6,8 +6,9 @@ import NiftyVerif.Model.LinOpsProto
 import NiftyVerif.Model.Response
 import NiftyVerif.Model.ResponseLos
 import NiftyVerif.Model.NftProto
+import NiftyVerif.Model.ResponseSampling
 open Lean NiftyVerif NiftyVerif.Proto NiftyVerif.Coo NiftyVerif.LinOps NiftyVerif.LinOpsProto NiftyVerif.Response
-open NiftyVerif.ResponseLos
+open NiftyVerif.ResponseLos NiftyVerif.ResponseSampling
 
 namespace NiftyVerif.ResponseProto
 
@@ -77,6 +78,19 @@ def handle35 (j : Json) : Json :=
       (losExtra eps shape dist st en).foldl (fun o kv => o.setObjVal! kv.1 kv.2)
         (render j (twoModes (toCQ (losCoo shape dist st en))))
     | _, _, _, _ => jErr "bad-args"
+  | some "SamplingLOS" =>
+    -- {"cls":"SamplingLOS","shape":[..],"dist":[..],"starts":[[..],…],"ends":[[..],…],"n":k,"x":[flat field]} →
+    -- {"vals":[ "p/q" | null per line ]}: `_los` of nifty/re/extra/sampling_los.py in units of ‖end − start‖ (null = nan)
+    match fNatList? j "shape", fRatList? j "dist", ratLists? j "starts", ratLists? j "ends", fNat? j "n", fRatList? j "x" with
+    | some shape, some dist, some st, some en, some n, some xs =>
+      if st.length != en.length || xs.length != prodL shape || n == 0 || dist.length != shape.length ||
+         st.any (fun p => p.length != shape.length) || en.any (fun p => p.length != shape.length) then jErr "bad-args" else
+      let x := fun (idx : List Int) => xs.getD (ravel shape (idx.map Int.toNat)) 0
+      jObj [("vals", Json.arr ((st.zip en).map fun se =>
+        match samplingLos shape dist x se.1 se.2 n with
+        | some v => jRat v
+        | none => Json.null).toArray)]
+    | _, _, _, _, _, _ => jErr "bad-args"
   | _ => LinOpsProto.handle j
 
 end NiftyVerif.ResponseProto
